@@ -209,10 +209,19 @@ def assemble(spec, i=0):
     return P.payload_bytes(rec)
   inner = assemble(spec, i + 1)
 
+  def inner_len():
+    """length of the inner bytes as the library emits them (the caller's len(payload))"""
+    if isinstance(inner, bytes):
+      return len(inner)
+    try:
+      return len(inner.pack())
+    except Exception:
+      return len(P.build(spec[i + 1:]))     # the failure itself is reported by the pack phase
+
   def ethertype():
     ty = rec.get("type")
     if ty is None:
-      ty = P._ethertype_for(nxt, len(P.build(spec[i + 1:])) if nxt["t"] == "llc" else 0)
+      ty = P._ethertype_for(nxt, inner_len() if nxt["t"] == "llc" else 0)
     return ty
 
   def attach(o):
@@ -371,7 +380,7 @@ def assemble(spec, i=0):
                            address=IPAddr(bytes(g["addr"]))) for g in rec["records"]]
     return ig.igmp(ver_and_type=0x22, group_records=recs, extra=bytes(rec.get("extra", b"")))
   if t == "eapol":
-    return attach(pkt.eapol(version=rec.get("ver", 1), type=rec.get("type", 0), bodylen=len(P.build(spec[i + 1:]))))
+    return attach(pkt.eapol(version=rec.get("ver", 1), type=rec.get("type", 0), bodylen=inner_len() if inner is not None else 0))
   if t == "eap":
     # the class has no type field for building: the type octet is the first payload octet
     body = (bytes([rec["type"]]) if rec.get("type") is not None else b"") + (inner if isinstance(inner, bytes) else b"")
@@ -387,7 +396,7 @@ def assemble(spec, i=0):
 _FIELDS = {
   "ethernet": ["dst", "src", "type"],
   "vlan": ["pcp", "cfi", "id", "eth_type"],
-  "llc": ["dsap", "ssap", "control", "oui", "eth_type", "length"],
+  "llc": ["dsap", "ssap", "control", "oui", "eth_type"],
   "arp": ["hwtype", "prototype", "hwlen", "protolen", "opcode", "hwsrc", "hwdst", "protosrc", "protodst"],
   "ipv4": ["v", "hl", "tos", "iplen", "id", "flags", "frag", "ttl", "protocol", "csum", "srcip", "dstip", "raw_options"],
   "ipv6": ["v", "tc", "flow", "payload_length", "next_header_type", "hop_limit", "srcip", "dstip", "extension_headers"],
@@ -534,21 +543,26 @@ def judge(spec, out):
   # ---- independent view of the emitted bytes
   d = P.dissect(b)
   exp = P.expected_protos(spec)
-  if d.error is not None:
-    out.fail("wire-structure", "reference dissector cannot walk the emitted %s frame: %s; layers reached %s\n%s"
-             % (shape, d.error, d.protos(), b.hex()[:400]), what=_err_class(d.error))
-  elif d.protos() != exp:
-    out.fail("wire-structure", "emitted %s frame dissects as %s, expected %s\n%s" % (shape, d.protos(), exp, b.hex()[:400]),
-             what="layers", at=next((x for x, y in zip(exp + ["<end>"], d.protos() + ["<end>"]) if x != y), "<end>"))
+  got = d.protos()
+  if d.error is not None or got != exp:
+    # name the layer whose header mis-announces what follows it: the last layer both views agree on
+    n = 0
+    while n < len(exp) and n < len(got) and exp[n] == got[n]:
+      n += 1
+    after = (exp[n - 1] if n > 0 else "<frame>").split(".")[0]
+    out.fail("wire-structure", "the emitted %s frame is not what its headers announce: reference dissector %s; it sees %s, the spec says %s\n%s"
+             % (shape, ("stops with '%s'" % d.error) if d.error else "finds other layers", got, exp, b.hex()[:600]), after=after)
+    return b          # the bytes are structurally wrong: a round trip of them proves nothing
   for c in d.bad_checks():
     out.fail("wire", "%s at offset %d of the emitted %s frame is %r, the reference says %r\n%s"
-             % (c["name"], c["off"], shape, c["got"], c["want"], b.hex()[:400]), check=c["name"])
-  if d.error is None and d.protos() == exp and spec[-1]["t"] == "raw":
+             % (c["name"], c["off"], shape, c["got"], c["want"], b.hex()[:600]), check=c["name"])
+  if spec[-1]["t"] == "raw":
     want = P.payload_bytes(spec[-1])
-    got = b[d.payload[0]:d.payload[1]] if d.payload else b""
-    if got != want:
-      out.fail("wire-payload", "payload located by the reference dissector in the emitted %s frame is %d bytes %s..., expected %d bytes %s..."
-               % (shape, len(got), got[:12].hex(), len(want), want[:12].hex()), inner=exp[-1] if exp else "?")
+    gotp = b[d.payload[0]:d.payload[1]] if d.payload else b""
+    if gotp != want:
+      out.fail("wire-payload", "payload located by the reference dissector in the emitted %s frame is %d bytes %s..., expected %d bytes %s...\n%s"
+               % (shape, len(gotp), gotp[:12].hex(), len(want), want[:12].hex(), b.hex()[:600]), inner=(exp[-1] if exp else "?").split(".")[0])
+      return b
 
   # ---- parse back
   try:
@@ -620,6 +634,20 @@ def _variants(spec):
   return [spec]
 
 
+def _fit_8023(spec):
+  """an 802.3 length field can announce at most 1500 bytes: shorten the free payload to fit, else skip"""
+  for i, r in enumerate(spec):
+    if r["t"] == "llc":
+      excess = len(P.build(spec[i:])) + 2 - 1500        # + 2: room for the twin and for odd padding
+      if excess <= 0:
+        return spec
+      last = spec[-1]
+      if last["t"] == "raw" and "len" in last and not last.get("fixed") and last["len"] >= excess:
+        return spec[:-1] + [dict(last, len=last["len"] - excess)]
+      return None
+  return spec
+
+
 def run_case(case):
   setup()
   spec = case["spec"]
@@ -628,6 +656,10 @@ def run_case(case):
   out.label("shape:" + case.get("shape", "/".join(protos)))
   for t in sorted(set(protos)):
     out.label("p:" + t)
+  spec = _fit_8023(spec)
+  if spec is None:
+    out.label("skipped:llc-pdu-over-1500")
+    return out
   variants = _variants(spec) if case.get("twin", True) else [spec]
   structured = spec[-1]["t"] != "raw"
   nonempty = structured or any(v[-1].get("len", len(v[-1].get("data", b""))) > 0 for v in variants)
